@@ -393,4 +393,64 @@ theorem ow_valid_iff_aux (m : Mem) (hL : 11 + owSectLen m ≤ m.length) (r : OWP
       split at h
       · cases h; simp
       · cases h
+def owSectLenOf (es : Dict (List Nat)) : Nat := (es.map fun p => 2 + p.2.length).sum
+
+theorem packB_nat {n : Nat} (h : n < 256) : packOne .B (.int (n : Int)) = .ok [UInt8.ofNat n] := by
+  have := packB_total (v := (n : Int)) (by omega) (by omega)
+  simpa using this
+
+theorem pack_BB_nat {a b : Nat} (ha : a < 256) (hb : b < 256) :
+    pack [.B, .B] [.int (a : Int), .int (b : Int)] = .ok [UInt8.ofNat a, UInt8.ofNat b] := by
+  have := pack_cons_total (by decide) (packB_nat ha) (pack_cons_total (cs := []) (vs := []) (by decide) (packB_nat hb) rfl)
+  simpa using this
+
+theorem pack_B_nat {a : Nat} (ha : a < 256) : pack [.B] [.int (a : Int)] = .ok [UInt8.ofNat a] := by
+  have := pack_cons_total (cs := []) (vs := []) (by decide) (packB_nat ha) rfl
+  simpa using this
+
+theorem owEncodeElems_total : ∀ (es : Dict (List Nat)),
+    (∀ p ∈ es, p.1 ∈ Gen.C14.owIds ∧ p.2.length < 256 ∧ ∀ c ∈ p.2, c < 256) →
+    ∃ bs, owEncodeElems es = .ok bs ∧ bs.length = owSectLenOf es
+  | [], _ => ⟨[], rfl, rfl⟩
+  | (k, s) :: rest, h => by
+    obtain ⟨hk, hl, hc⟩ := h (k, s) (by simp)
+    obtain ⟨r, hr, hrl⟩ := owEncodeElems_total rest (fun p hp => h p (by simp [hp]))
+    have hk256 : k < 256 := by
+      rw [gen_owIds] at hk
+      simp at hk; omega
+    have hcont : Gen.C14.owIds.contains k = true := List.contains_iff_mem.mpr hk
+    have henc : encodeLatin1 s = .ok (s.map UInt8.ofNat) := by
+      unfold encodeLatin1
+      rw [if_pos]
+      rw [List.all_eq_true]
+      intro c hc'
+      simpa using hc c hc'
+    refine ⟨[UInt8.ofNat k, UInt8.ofNat s.length] ++ s.map UInt8.ofNat ++ r, ?_, ?_⟩
+    · simp only [owEncodeElems, fmt_owWKeyLen, hcont, not_true_eq_false, if_false, pack_BB_nat hk256 hl, henc, hr, bind, Except.bind,
+        pure, Except.pure]
+    · simp [owSectLenOf, hrl]; omega
+
+/-- `write_data` produces an image for EVERY representable content -/
+theorem ow_image_total_aux (o : OWData) (hp : 0 ≤ o.pins ∧ o.pins < 2 ^ 32) (hv : 0 ≤ o.vid ∧ o.vid < 256) (hi : 0 ≤ o.pid ∧ o.pid < 256)
+    (he : ∀ p ∈ o.elements, p.1 ∈ Gen.C14.owIds ∧ p.2.length < 256 ∧ ∀ c ∈ p.2, c < 256)
+    (hs : owSectLenOf o.elements < 256) :
+    ∃ img, owImage o = .ok img ∧ img.length = 11 + owSectLenOf o.elements := by
+  obtain ⟨elem, helem, hel⟩ := owEncodeElems_total o.elements.reverse (fun p hp' => he p (by simpa using hp'))
+  have hrev : owSectLenOf o.elements.reverse = owSectLenOf o.elements := by
+    simp [owSectLenOf, List.map_reverse, List.sum_reverse]
+  rw [hrev] at hel
+  obtain ⟨pn, hpe⟩ := Int.eq_ofNat_of_zero_le hp.1
+  have hpn : pn < 2 ^ 32 := by have := hp.2; omega
+  have hhdr := pack_cons_total (by decide) (packB_nat (n := 0xEB) (by decide))
+    (pack_cons_total (by decide) (packI_total hpn)
+      (pack_cons_total (by decide) (packB_total hv.1 hv.2)
+        (pack_cons_total (cs := []) (vs := []) (by decide) (packB_total hi.1 hi.2) rfl)))
+  have hmod : ∀ l : List UInt8, crc32 l % 256 < 256 := fun l => Nat.mod_lt _ (by decide)
+  unfold owImage
+  simp only [fmt_owWHdr, fmt_owWHdrCrc, fmt_owWArea, fmt_owWAreaCrc, gen_owMasks.1, gen_owMasks.2.1, and255, gen_owMagic.2,
+    bind, Except.bind]
+  rw [hpe, show ((235 : Nat) : Int) = ((0xEB : Nat) : Int) from rfl, hhdr]
+  simp only [pack_B_nat (hmod _), helem]
+  rw [show (0 : Int) = ((0 : Nat) : Int) from rfl, pack_BB_nat (by decide) (by omega)]
+  exact ⟨_, rfl, by simp [hel]; omega⟩
 end CfVerif.C14
